@@ -1146,7 +1146,7 @@ class TaskScenario(ScenarioData):
 
         consecutive_count = 0
         current_slot = self.currentSlotIdx if self.currentSlotIdx is not None else 0
-        max_slots = 1000
+        max_slots = self.project.scoreboardSize()
 
         while current_slot < max_slots and consecutive_count < slots_needed:
             if self.project.isWorkingTime(current_slot):
